@@ -648,8 +648,7 @@ def run(tier, seed):
         asis = tlc.run("MC_LlcpCollect.tla", "MC_LlcpCollect_%s.cfg" % k, PID + "/" + k, workers=2, timeout=300)
         if "FrameFits" not in asis.violated:
             raise tlc.TLCError("model of the shipped code (%s) does not violate FrameFits: invariant is vacuous" % k)
-        ck.cover(**{"shipped_model_" + k: "FrameFits violated after %d states, %d steps" % (
-            asis.distinct, len(asis.error_trace or []))})
+        ck.cover(**{"shipped_model_" + k: "FrameFits violated (counterexample of %d states)" % len(asis.error_trace or [])})
     # reachability witnesses
     for k, names in WITNESSES.items():
         hit, _ = tlc.witnesses("MC_LlcpCollect.tla", "MC_LlcpCollect_%s.cfg" % k, PID + "/w" + k, names, workers=2)
